@@ -62,7 +62,7 @@ def main(argv: List[str]) -> int:
         lo += n // 2
         for seed, dm in ms:
             for route in ('parsed', 'built', 'built_notes' if seed % 2 else 'built_shared_notes',
-                          ('morphed:refs', 'morphed:names', 'morphed:settings', 'moved')[seed % 4]):
+                          ('morphed:refs', 'morphed:names', 'morphed:settings', 'moved', 'built_alias_namesake')[seed % 5]):
                 tid += 1
                 items[tid] = {'tid': tid, 'route': route, 'doc': dm['doc'], 'model': dm['model'], 'fseed': seed, 'pinned': {},
                               'seed': seed, 'variant': with_props}
